@@ -653,6 +653,7 @@ func writeEvidence(verifDir string, p *Prog, pd *PropDef, r *checkResult, tier s
 			"functions_count":        len(fnames),
 			"by_backend":             stats.BySolver,
 			"solver_seconds":         stats.SolverSec,
+			"solver_seconds_note":    "per back end; answers taken from the memo under work/solvecache count with the time the solver needed when they were computed",
 			"slowest":                slow,
 			"covers_checked":         r.covers,
 			"false_goal_checks":      r.falseGoal,
@@ -684,4 +685,5 @@ var globalAssumptions = []string{
 	"functions without a contract are abstracted by their inferred write set and an arbitrary result of the declared type",
 	"user callbacks (context functions, custom tags/filters/loaders/writers) are external",
 	"stack depth and memory exhaustion are not modelled",
+	"a pointer-receiver method is not invoked on a nil receiver (same class as nil dereference)",
 }
